@@ -24,6 +24,7 @@ def check(repo, tier="quick"):
     )
     res.rule("C16.a", "every level key the validator enforces is consulted somewhere in the encoder's constraint handling")
     res.rule("C16.b", "every option dictionary yielded by the header generators is dominated by membership tests of each constrained value it carries")
+    res.rule("C16.e", "history independence: the functions through which the encoder decides level-constrained values keep no state between calls (no memo tables, caches or mutated module-level containers), so the decision for one configuration cannot be affected by an earlier one")
     res.rule("C16.c", "iter_sequence_headers filters the level table with the known values plus the candidate base format before iterating columns; the flags of extended transform parameters are decided against the table")
     res.rule("C16.d", "the validator's keys are exactly the rows of level_constraints.csv")
 
@@ -44,6 +45,10 @@ def check(repo, tier="quick"):
     rule_c(repo, res)
     res.floor("C16.a", 50)
     res.floor("C16.b", 5)
+    from .. import globals_state
+
+    globals_state.rule(repo, res, "C16.e", ["codec_features", "level_constraints", "constraint_table", "encoder.sequence_header", "encoder.pictures", "encoder.sequence", "encoder.level_constraints" if "vc2_conformance.encoder.level_constraints" in repo.modules else "encoder.exceptions", "pseudocode.slice_sizes", "pseudocode.video_parameters"], what="the level-constrained values the encoder computes for a configuration")
+    res.floor("C16.e", 8)
     res.floor("C16.c", 3)
     res.floor("C16.d", 1)
     res.assumptions = ["values the encoder derives arithmetically (slice sizes, quantisation indices) are not tracked beyond key coverage"]
